@@ -377,6 +377,11 @@ func (fc *FuncCtx) callWith(c *ast.CallExpr, st *State, recv *Value, args []*Val
 	if ct == nil {
 		ct = e.contractFor(pp, key)
 	}
+	if ct == nil && fn.Pkg() != nil {
+		if res, ok := fc.inlineCall(c, st, fn, recv, args); ok {
+			return res
+		}
+	}
 	if ct == nil {
 		// a library function (outside this repository) that takes only values - numbers, booleans, strings,
 		// errors - cannot touch the state the contracts speak about: it is treated as a pure function with an
@@ -733,8 +738,99 @@ func (fc *FuncCtx) callFuncValue(c *ast.CallExpr, st *State, fv *types.Var, args
 
 // inlineCall executes the body of a small same-module function in place of
 // applying its contract (used only where the contract file says "inline").
+// inlineCall executes the body of a function of the same package in place.  It is the fallback for a call to
+// a function that has no contract (for instance a helper a refactoring has just extracted): sound - it is plain
+// symbolic execution of the callee's code - and restricted to bodies the translator can handle without
+// annotations: no loops, no defer, no go, no function literals, no recursion.
 func (fc *FuncCtx) inlineCall(c *ast.CallExpr, st *State, fn *types.Func, recv *Value, args []*Value) ([]*Value, bool) {
-	return nil, false
+	e := fc.e
+	if fn.Pkg() != fc.pkg.Types || len(fc.inlines) >= 3 {
+		return nil, false
+	}
+	var decl *ast.FuncDecl
+	for _, f := range fc.pkg.Syntax {
+		for _, d := range f.Decls {
+			if fd, ok := d.(*ast.FuncDecl); ok && fd.Body != nil && fc.info.Defs[fd.Name] == fn {
+				decl = fd
+			}
+		}
+	}
+	if decl == nil {
+		return nil, false
+	}
+	simple := true
+	ast.Inspect(decl.Body, func(n ast.Node) bool {
+		switch n.(type) {
+		case *ast.ForStmt, *ast.RangeStmt, *ast.DeferStmt, *ast.GoStmt, *ast.FuncLit, *ast.SelectStmt, *ast.LabeledStmt:
+			simple = false
+		}
+		return simple
+	})
+	for _, fr := range fc.inlines {
+		if fr.fn == fn {
+			simple = false // recursion
+		}
+	}
+	if !simple {
+		return nil, false
+	}
+	sig := fn.Type().(*types.Signature)
+	if sig.Variadic() {
+		return nil, false
+	}
+	e.note("call of " + fn.Name() + " (no contract) inlined in " + fc.name)
+	if r := sig.Recv(); r != nil && recv != nil {
+		fc.declareVar(st, r, fc.convertTo(recv, e.shapeOf(r.Type())))
+	}
+	for i := 0; i < sig.Params().Len() && i < len(args); i++ {
+		pv := sig.Params().At(i)
+		fc.declareVar(st, pv, fc.convertTo(args[i], e.shapeOf(pv.Type())))
+	}
+	fr := &inlineFrame{fn: fn, id: len(fc.inlines)}
+	for i := 0; i < sig.Results().Len(); i++ {
+		rv := sig.Results().At(i)
+		fr.results = append(fr.results, rv)
+		if rv.Name() != "" && rv.Name() != "_" {
+			fc.declareVar(st, rv, e.zeroValue(e.shapeOf(rv.Type())))
+		}
+	}
+	fc.inlines = append(fc.inlines, fr)
+	savedFrames, savedDefers := fc.frames, fc.defers
+	fc.frames, fc.defers = nil, nil
+	end := fc.execBlock(decl.Body, st.clone())
+	fc.frames, fc.defers = savedFrames, savedDefers
+	fc.inlines = fc.inlines[:len(fc.inlines)-1]
+	if end != nil {
+		if len(fr.results) != 0 {
+			fc.unsupp(c, "inlined function %s falls off the end", fn.Name())
+		}
+		fr.rets = append(fr.rets, end)
+	}
+	out := e.merge(fr.rets)
+	if out == nil {
+		// the callee never returns (panics on every path)
+		st.pc = append(st.pc, "false")
+		var zs []*Value
+		for _, rv := range fr.results {
+			zs = append(zs, e.zeroValue(e.shapeOf(rv.Type())))
+		}
+		return zs, true
+	}
+	*st = *out
+	var res []*Value
+	for i := range fr.results {
+		name := fmt.Sprintf("$inl%d.%d", fr.id, i)
+		res = append(res, st.ghost[name])
+		delete(st.ghost, name)
+	}
+	return res, true
+}
+
+type inlineFrame struct {
+	fn      *types.Func
+	id      int
+	results []*types.Var
+	rets    []*State
 }
 
 // ---------------------------------------------------------------- special call forms
